@@ -353,6 +353,18 @@ def run(chk):
                         chk.violation("zero:%s" % ty, "zero object of %s is not the zero operator" % key, case)
                 except Exception as e:
                     chk.violation("origin_zero:exception:%s" % ty, "%r" % e, case)
+                # the verdicts are those of the operators the object denotes NOW: after set_zero() (the object has been queried
+                # above) it denotes the zero operator - positive semidefinite / completely positive, but not unit trace /
+                # not summing to the identity / not trace preserving
+                try:
+                    obj.set_zero()
+                    eq0, in0 = obj.is_eq_constraint_satisfied(1e-9), obj.is_ineq_constraint_satisfied(1e-9)
+                    ph0 = obj.is_physical(atol_eq_const=1e-9, atol_ineq_const=1e-9)
+                    if bool(eq0) or not bool(in0) or bool(ph0):
+                        chk.violation("verdict:after_set_zero:%s" % ty, "%s after set_zero(): eq=%s ineq=%s physical=%s; the zero operator gives False / True / False" % (
+                            key, eq0, in0, ph0), case)
+                except Exception as e:
+                    chk.violation("verdict:after_set_zero:exception:%s" % ty, "%r" % e, case)
             chk.replayed += 1
             if n in (11, 2000):
                 chk.sample(case)
